@@ -58,7 +58,7 @@ def jtok(v):
     if isinstance(v, (list, tuple)):
         return '[' + ','.join(jtok(e) for e in v) + ']'
     if isinstance(v, dict):
-        return '{' + ','.join(x(k) + ':' + jtok(e) for k, e in v.items()) + '}'
+        return '{' + ','.join(x(k) + ':' + jtok(e) for k, e in sorted(v.items(), key=lambda kv: kv[0].encode('utf-8'))) + '}'
     raise TypeError(v)
 
 
@@ -171,7 +171,25 @@ def canon_model(obs):
     return obs
 
 
-def obs_equal(m, i):
+_HASH_SUBEXPR = re.compile(r'3d28')      # "=(" inside a hex-encoded template
+
+
+def _log_perm_equal(a, b):
+    """R: observations equal except that the LOG lines are permuted (hash-argument evaluation
+    order follows a HashMap in the implementation: finding F12)"""
+    pa, pb = a.split(':'), b.split(':')
+    if len(pa) != len(pb) or pa[0] != 'R' or pb[0] != 'R' or pa[1] != pb[1]:
+        return False
+    li = 3 if pa[1] == 'ok' else 8
+    if pa[:li] != pb[:li] or pa[li + 1:] != pb[li + 1:]:
+        return False
+    try:
+        return sorted(unx(pa[li]).split('\n')) == sorted(unx(pb[li]).split('\n'))
+    except Exception:
+        return False
+
+
+def obs_equal(m, i, line=''):
     """model observation list vs implementation observation list (strings)"""
     if m is None or i is None:
         return False
@@ -185,6 +203,8 @@ def obs_equal(m, i):
     for a, b in zip(mt, it):
         if a == b:
             continue
+        if len(_HASH_SUBEXPR.findall(line)) >= 2 and _log_perm_equal(a, b):
+            continue
         return False
     return True
 
@@ -197,7 +217,7 @@ def compare(lines, profile='debug', timeout=900):
     for l in lines:
         cid = l.split(' ', 1)[0]
         mo, io = m.get(cid), i.get(cid)
-        out.append((cid, l, mo, io, obs_equal(mo, io)))
+        out.append((cid, l, mo, io, obs_equal(mo, io, l)))
     return out
 
 
